@@ -1774,6 +1774,23 @@ class FortranFileReader(FortranReaderBase):
         if self._close_on_destruction:
             self.file.close()
 
+    def __getstate__(self):
+        """
+        The open file handle cannot be copied or pickled. Since every node
+        of a parse tree refers (via its `item`) to the reader it came from,
+        a copy of this reader refers to the same, named source but has no
+        handle and is marked as closed.
+
+        :returns: the state to use when copying or pickling this reader.
+        :rtype: dict
+        """
+        state = self.__dict__.copy()
+        state["file"] = None
+        state["source"] = None
+        state["isclosed"] = True
+        state["_close_on_destruction"] = False
+        return state
+
     def close_source(self):
         self.file.close()
 
